@@ -38,16 +38,30 @@ def _warp(rng, curved, far=0.0):
 
 
 def gen_network(rng, rows=None, cols=None, ids=None, curved=None, signs=True, lights=True, intersections=True,
-                overlap=None, stop_lines=True, opposite=True, n_pts=None, types=True, extra_links=True, far=0.0):
-    """Grid of lanelets: row r+1 lies to the left of row r; lanelets of one row are chained."""
+                overlap=None, stop_lines=True, opposite=True, n_pts=None, types=True, extra_links=True, far=0.0,
+                lattice=False):
+    """Grid of lanelets: row r+1 lies to the left of row r; lanelets of one row are chained.
+
+    lattice=True: an unwarped, axis-parallel grid whose coordinates are small multiples of 1/2, so that all
+    arithmetic on them is exact and tangencies (a shape whose border coincides with a lanelet border) are decidable."""
     rows = rows or rng.randint(1, 3)
     cols = cols or rng.randint(1, 3)
     ids = ids or IdAlloc(rng)
     curved = rng.chance(0.6) if curved is None else curved
-    warp = _warp(rng, curved, far)
-    L = rng.uniform(8.0, 16.0)
-    W = rng.uniform(2.5, 4.5)
-    n_pts = n_pts or rng.randint(2, 5)
+    if lattice:
+        ox, oy = float(rng.randint(-20, 20)), float(rng.randint(-20, 20))
+
+        def warp(x, y):
+            return [x + ox, y + oy]
+        L = rng.choice([8.0, 12.0])
+        W = rng.choice([2.0, 4.0])
+        n_pts = rng.choice([2, 3, 5])
+        overlap = False
+    else:
+        warp = _warp(rng, curved, far)
+        L = rng.uniform(8.0, 16.0)
+        W = rng.uniform(2.5, 4.5)
+        n_pts = n_pts or rng.randint(2, 5)
     grid = {}
     lanelets = []
     opp_rows = {r for r in range(rows) if opposite and r == rows - 1 and rows > 1 and rng.chance(0.35)}
@@ -174,7 +188,7 @@ def gen_network(rng, rows=None, cols=None, ids=None, curved=None, signs=True, li
         for k in ("signs", "lights"):
             if k in la:
                 la[k] = sorted(set(la[k]))
-    net["_geom"] = {"L": L, "W": W, "rows": rows, "cols": cols}
+    net["_geom"] = {"L": L, "W": W, "rows": rows, "cols": cols, "lattice": bool(lattice)}
     return net
 
 
